@@ -174,7 +174,7 @@ fn mutate(r: &mut Rng, enc: &[u8], nfields: usize) -> (&'static str, Vec<u8>) {
     if enc.len() < 32 * nfields { let n = r.below(200) as usize; return ("random", r.bytes(n)); }
     let mut d = enc.to_vec();
     let words = d.len() / 32;
-    match r.below(14) {
+    match r.below(16) {
         0 => ("canonical", d),
         1 => { // truncate at a word boundary +-1
             if words == 0 { return ("canonical", d); }
@@ -218,6 +218,19 @@ fn mutate(r: &mut Rng, enc: &[u8], nfields: usize) -> (&'static str, Vec<u8>) {
         12 => { // u8 word 255/256/257
             let i = r.below(nfields as u64) as usize; let v = *r.pick(&[255u64, 256, 257, 511, 65536]);
             d[32 * i..32 * i + 32].copy_from_slice(&word_u64(v)); ("u8_edge", d) }
+        13 => { // two (or three) dirty bytes in the zero prefix of a HEAD word that cancel under xor / sum to a multiple of 256
+            let i = r.below(nfields as u64) as usize; if 32 * i + 32 > d.len() { return ("canonical", d); }
+            let a = r.below(24) as usize; let mut b = r.below(24) as usize; if b == a { b = (a + 1) % 24; }
+            let v = 1 + (r.next() as u8 % 255);
+            match r.below(3) { 0 => { d[32 * i + a] ^= v; d[32 * i + b] ^= v; }
+                               1 => { d[32 * i + a] = v; d[32 * i + b] = 0u8.wrapping_sub(v); }
+                               _ => { d[32 * i + a] = 0x80; d[32 * i + b] = 0x80; } }
+            ("dirty_pair", d) }
+        14 => { // the same in the word after the head (a length word)
+            if words <= nfields { return ("canonical", d); }
+            let i = nfields + r.below((words - nfields) as u64) as usize;
+            let a = r.below(24) as usize; let b = (a + 1 + r.below(22) as usize) % 24; let v = 1 + (r.next() as u8 % 255);
+            d[32 * i + a] ^= v; d[32 * i + b] ^= v; ("dirty_pair_tail", d) }
         _ => { d.pop(); ("chop1", d) }
     }
 }
